@@ -692,36 +692,40 @@ theorem notifyConsumers_spec (m : CMsg) (l : List (Bytes × Nat)) (c : Conn)
       have hj2 : j ∉ rest.map (·.2) := fun e => hj (by rw [List.map_cons]; exact List.mem_cons_of_mem _ e)
       rw [i4 j hj2, hlk, if_neg hj1]
 
-/-- One iteration of the `chan_slots.drain()` loop when nothing fails. -/
+/-- One iteration of the `chan_slots.drain()` loop when nothing fails (consumers first, then the
+    channel's caller). -/
 def closeSlot (r : Reply) (m : CMsg) (c : Conn) (s : Slot) : Conn :=
-  dropSlotEnds (notifyConsumers m (sendReply c s.lid r).1 s.consumers).1 s
+  dropSlotEnds (sendReply (notifyConsumers m c s.consumers).1 s.lid r).1 s
 
-/-- A slot whose handle and consumers are all there: the handle gets the reply, every consumer the
-    terminal message, all the slot's queue ends are dropped, nothing else moves. -/
+/-- A slot whose handle and consumers are all there: every consumer gets the terminal message, the
+    handle gets the reply, all the slot's queue ends are dropped, nothing else moves. -/
 theorem closeSlot_spec (r : Reply) (m : CMsg) (c : Conn) (s : Slot)
     (ha : (getLink c s.lid).clientAlive = true) (hr : (getLink c s.lid).replies.length < 2)
     (hc : ∀ e ∈ s.consumers, ∃ q, lookupN e.2 c.cqs = some q ∧ q.rxAlive = true)
     (hnd : (s.consumers.map (·.2)).Nodup) :
-    (sendReply c s.lid r).2 = none ∧
-    (notifyConsumers m (sendReply c s.lid r).1 s.consumers).2 = none ∧
+    (notifyConsumers m c s.consumers).2 = none ∧
+    (sendReply (notifyConsumers m c s.consumers).1 s.lid r).2 = none ∧
     (getLink (closeSlot r m c s) s.lid).replies = (getLink c s.lid).replies ++ [r] ∧
     (getLink (closeSlot r m c s) s.lid).ioAlive = false ∧
     (∀ lid, lid ≠ s.lid → getLink (closeSlot r m c s) lid = getLink c lid) ∧
     (∀ e ∈ s.consumers, ∀ q, lookupN e.2 c.cqs = some q →
       lookupN e.2 (closeSlot r m c s).cqs = some { q with msgs := q.msgs ++ [m], txAlive := false }) ∧
     (∀ j, j ∉ s.consumers.map (·.2) → lookupN j (closeSlot r m c s).cqs = lookupN j c.cqs) := by
-  have e1 := sendReply_ok ha hr r
-  have hc1 : ∀ e ∈ s.consumers, ∃ q, lookupN e.2 (sendReply c s.lid r).1.cqs = some q ∧ q.rxAlive = true := by
-    rw [e1]; exact hc
-  obtain ⟨n1, n2, n3, n4⟩ := notifyConsumers_spec m s.consumers (sendReply c s.lid r).1 hc1 hnd
-  have hcq : (sendReply c s.lid r).1.cqs = c.cqs := by rw [e1]; rfl
-  have hl : ∀ lid, getLink (notifyConsumers m (sendReply c s.lid r).1 s.consumers).1 lid =
+  obtain ⟨n1, n2, n3, n4⟩ := notifyConsumers_spec m s.consumers c hc hnd
+  have hg : getLink (notifyConsumers m c s.consumers).1 s.lid = getLink c s.lid := getLink_congr n2 s.lid
+  have e1 := sendReply_ok (c := (notifyConsumers m c s.consumers).1) (lid := s.lid)
+    (by rw [hg]; exact ha) (by rw [hg]; exact hr) r
+  rw [hg] at e1
+  have hcq : (sendReply (notifyConsumers m c s.consumers).1 s.lid r).1.cqs =
+      (notifyConsumers m c s.consumers).1.cqs := by rw [e1]; rfl
+  have hl : ∀ lid, getLink (sendReply (notifyConsumers m c s.consumers).1 s.lid r).1 lid =
       if s.lid = lid then { (getLink c s.lid) with replies := (getLink c s.lid).replies ++ [r] }
       else getLink c lid := by
     intro lid
-    rw [getLink_congr n2 lid, e1]
-    exact getLink_setLink c s.lid lid _
-  refine ⟨by rw [e1], n1, ?_, ?_, fun lid hne => ?_, fun e he q hq => ?_, fun j hj => ?_⟩
+    rw [e1]
+    show getLink (setLink _ _ _) lid = _
+    rw [getLink_setLink, getLink_congr n2 lid]
+  refine ⟨n1, by rw [e1], ?_, ?_, fun lid hne => ?_, fun e he q hq => ?_, fun j hj => ?_⟩
   · unfold closeSlot
     rw [getLink_dropSlotEnds, if_pos rfl, hl, if_pos rfl]
   · unfold closeSlot
@@ -729,13 +733,13 @@ theorem closeSlot_spec (r : Reply) (m : CMsg) (c : Conn) (s : Slot)
   · unfold closeSlot
     rw [getLink_dropSlotEnds, if_neg (fun e => hne e.symm), hl, if_neg (fun e => hne e.symm)]
   · unfold closeSlot
-    exact lookupN_dropSlotEnds_off _ s (n3 e he q (by rw [hcq]; exact hq)) rfl
+    exact lookupN_dropSlotEnds_off _ s (by rw [hcq]; exact n3 e he q hq) rfl
   · unfold closeSlot
-    rw [lookupN_dropSlotEnds_ne _ s hj, n4 j hj, hcq]
+    rw [lookupN_dropSlotEnds_ne _ s hj, hcq, n4 j hj]
 
 theorem drainSlots_go_cons (r : Reply) (m : CMsg) (all : List (Nat × Slot)) (c : Conn) (k : Nat)
-    (s : Slot) (rest : List (Nat × Slot)) (h1 : (sendReply c s.lid r).2 = none)
-    (h2 : (notifyConsumers m (sendReply c s.lid r).1 s.consumers).2 = none) :
+    (s : Slot) (rest : List (Nat × Slot)) (h1 : (notifyConsumers m c s.consumers).2 = none)
+    (h2 : (sendReply (notifyConsumers m c s.consumers).1 s.lid r).2 = none) :
     drainSlots.go r m all c ((k, s) :: rest) = drainSlots.go r m all (closeSlot r m c s) rest := by
   conv => lhs; unfold drainSlots.go
   dsimp only
@@ -744,14 +748,14 @@ theorem drainSlots_go_cons (r : Reply) (m : CMsg) (all : List (Nat × Slot)) (c 
     have := congrArg Prod.snd heq
     rw [h1] at this; cases this
   · rename_i c1 heq
-    have e1 : c1 = (sendReply c s.lid r).1 := (congrArg Prod.fst heq).symm
+    have e1 : c1 = (notifyConsumers m c s.consumers).1 := (congrArg Prod.fst heq).symm
     subst e1
     split
     · rename_i heq2
       have := congrArg Prod.snd heq2
       rw [h2] at this; cases this
     · rename_i c2 heq2
-      have e2 : c2 = (notifyConsumers m (sendReply c s.lid r).1 s.consumers).1 :=
+      have e2 : c2 = (sendReply (notifyConsumers m c s.consumers).1 s.lid r).1 :=
         (congrArg Prod.fst heq2).symm
       subst e2
       rfl
